@@ -1,10 +1,13 @@
 """Tie of the reference-resolution model (coq/theories/Model/Refs.v) to /repo, and its oracle (WP-G; C11, C12).
 
 `obligations(run)`
-  * re-checks Props/C11Refs.v (15 theorems, Print Assumptions closed);
+  * re-checks Props/C11Refs.v (19 theorems, Print Assumptions closed);
   * reflects from the live module WHICH resolver it is (`refs._resolve_module_name` wrapped by functools.cache =
     the code before the repair, model `fixed = false`; plain function = repaired, `fixed = true`) and, by a profiler
     on probe calls, the library's own frames between each entry point and `_resolve_module_name`, and `extract`'s frame;
+    and which `forwardref` it is: `l_strip_lead` ('<module>.' dropped only where it leads a dotted name, vs the pinned
+    str.replace) and `l_caller_head` (a leading name the calling module binds is a name of that module, vs the pinned
+    "a leading dotted name is a module") -- one obligation each, and the model variant follows the flags;
   * correspondence stream `refs-histories`: generated histories of unmarshal / marshal / decode / codec /
     refs.forwardref / graph.static_order calls with bare strings, qualified strings and ForwardRefs, issued from inside
     2-3 synthesised modules (same name bound to different classes, aliases whose __module__ is typing / types, NewTypes,
@@ -17,7 +20,10 @@
 
 `search(run)`  the oracle, independent of the model: every operation of every history alone in a fresh (forked, never
   used) interpreter vs in the history (C12), and the string vs the object it names in the caller's module, both cold
-  (C11).  Returns failure dicts with a shrunk replay.  `replay(payload)` re-runs one.
+  (C11), the latter also for subscripted texts the model's `evaluate` does not cover (`typing.Optional[Node]`, ...:
+  `oracle_extras`, judged against `eval(text, module.__dict__)`).  Returns failure dicts with a shrunk replay and a
+  `cause` (history-dependence, string-not-transparent, qualified-mangled, dotted-prefix-is-caller-name).
+  `replay(payload)` re-runs one.
 
 Worker mode (`python refstie.py --worker`): a fork server like harness/c12_worker.py; the only part that imports typelib.
 """
@@ -35,7 +41,8 @@ HERE = os.path.dirname(os.path.abspath(__file__))
 THEOREMS = [
     "Refs_refuted_cross_module", "Refs_refuted_resolver_memo", "Refs_refuted_factory_key", "Refs_full_refuted",
     "Refs_refuted_library_capture", "Refs_refuted_object_module", "Refs_full_repaired", "Refs_repaired_bare",
-    "Refs_repaired_qualified", "Refs_repaired_qualified_name", "Refs_refuted_qualified_mangled",
+    "Refs_repaired_qualified", "Refs_repaired_qualified_name", "Refs_repaired_caller_head", "Refs_repaired_caller_head_name",
+    "Refs_refuted_qualified_mangled", "Refs_refuted_dotted_head_pinned", "Refs_repaired_caller_name_wins",
     "Refs_repaired_refuted_local_only", "Refs_extract_innermost", "Refs_extract_global_before_local",
     "Refs_outer_local_falls_to_object_module",
 ]
@@ -45,6 +52,7 @@ COQ_TARGETS = ["theories/Props/C11Refs.vo", "theories/Model/RefsEq.vo"]
 # names asked for: ordinary ones, two that frames of the library bind as globals (graph.TypeNode; Codec in typelib.api
 # and typelib.codecs), one that they bind as a local (`name` in extract / forwardref)
 UNIVERSE = ["Node", "Item", "Leaf", "TypeNode", "Codec", "name"]
+ALIASES = ["Ma", "Mb", "Mc"]            # names modules are imported under (`import rf..a as Ma`); also used as locals
 KINDS = ["U", "M", "D", "C", "R", "S"]
 ENTRY = {"U": "EUnmarshal", "M": "EMarshal", "D": "EDecode", "C": "ECodec", "R": "EForwardref", "S": "EStaticOrder"}
 CLEARS = {"all": "CAll", "res": "CRes", "so": "CSo", "un": "CUn", "ma": "CMa", "cd": "CCd"}
@@ -74,7 +82,8 @@ def witness_src(k: int, name: str) -> str:
 
 
 def module_source(m: dict) -> str:
-    out = ["import dataclasses, sys, typing", "import typelib", "from typelib import refs, graph", ""]
+    out = ["import collections, dataclasses, sys, typing", "import typing as t", "from typing import Optional",
+           "import typelib", "from typelib import refs, graph", ""]
     for b in m["binds"]:
         n, kind = b[0], b[1]
         if kind == "class":
@@ -87,11 +96,15 @@ def module_source(m: dict) -> str:
             out.append(witness_src(b[2], f"_W{b[2]}") + f"{n} = typing.NewType({n!r}, _W{b[2]})\n")
         elif kind == "from":
             out.append(f"from {b[2]} import {b[3]} as {n}\n")
+        elif kind == "import":
+            out.append(f"import {b[2]}\n")
+        elif kind == "importas":
+            out.append(f"import {b[2]} as {n}\n")
         else:
             raise ValueError(b)
     out.append("def do(kind, ref, v):\n" + DISPATCH)
     out.append("def hop(k, *a):\n    return k(*a)\n")
-    for n in UNIVERSE:
+    for n in UNIVERSE + ALIASES:
         out.append(f"def shadow_{n}(obj, k, *a):\n    {n} = obj\n    return k(*a)\n")
         out.append(f"def do_local_{n}(obj, kind, ref, v):\n    {n} = obj\n" + DISPATCH)
     return "\n".join(out)
@@ -109,7 +122,7 @@ def gen_group(rng: random.Random, tag: str, gi: int) -> dict:
                 continue
             if n == "Node":
                 r *= 0.8          # almost every module binds Node
-            earlier = [(m["name"], b[0]) for m in mods for b in m["binds"]]
+            earlier = [(m["name"], b[0]) for m in mods for b in m["binds"] if b[1] not in ("import", "importas")]
             if r < 0.38 or (not earlier and r < 0.62):
                 binds.append([n, "class", wit]); wit += 1
             elif r < 0.46:
@@ -122,12 +135,28 @@ def gen_group(rng: random.Random, tag: str, gi: int) -> dict:
                 same = [e for e in earlier if e[1] == n]
                 src = rng.choice(same) if same and rng.random() < 0.6 else rng.choice(earlier)
                 binds.append([n, "from", src[0], src[1]])
+        # module objects under their own name, under an alias, under the name of ANOTHER module of the group
+        for m in mods:
+            r = rng.random()
+            if r < 0.35:
+                binds.append([m["name"], "import", m["name"]])
+            elif r < 0.55:
+                binds.append([f"M{m['name'][-1]}", "importas", m["name"]])
+            elif r < 0.62 and len(mods) > 1:
+                other = rng.choice([x["name"] for x in mods if x["name"] != m["name"]])
+                binds.append([other, "importas", m["name"]])
+        if rng.random() < 0.3:
+            binds.append([base + "p", "import", base + "p." + "SUB"])
         mods.append({"name": name, "binds": binds})
     # a package with one sub-module, for three-component names; half of the time its name repeats the package's
     pkg = base + "p"
     sub = ("x" + pkg) if rng.random() < 0.5 else "sub"
     pk = {"pkg": pkg, "sub": sub, "binds": [["Node", "class", wit]]}
     wit += 1
+    for m in mods:
+        for b in m["binds"]:
+            if b[1] == "import" and b[2].endswith(".SUB"):
+                b[2] = pkg + "." + sub
     return {"base": base, "mods": mods, "pkg": pk, "witnesses": wit}
 
 
@@ -141,6 +170,27 @@ def bound_in(group: dict, mod: str, name: str) -> bool:
     return False
 
 
+def module_binding(group: dict, mod: str, name: str):
+    """The module a module-level name of `mod` is bound to by an import statement, or None."""
+    for m in group["mods"]:
+        if m["name"] == mod:
+            for b in reversed(m["binds"]):
+                if b[0] == name and b[1] == "importas":
+                    return b[2]
+                if b[1] == "import" and b[2].split(".")[0] == name:
+                    return name
+    return None
+
+
+def qualified_target(group: dict, inner: str, text: str):
+    """[module, name] a dotted text denotes for Python when written in module `inner` (None: nothing we bind)."""
+    parts = text.split(".")
+    head = parts[0]
+    bound = module_binding(group, inner, head)
+    modname = ".".join([bound if bound is not None else head] + parts[1:-1])
+    return ([modname, parts[-1]] if bound_in(group, modname, parts[-1]) else None), bound is not None
+
+
 def mangled(text: str) -> bool:
     head, _, rest = text.partition(".")
     return bool(rest) and (head + ".") in rest
@@ -152,6 +202,7 @@ def gen_op(rng: random.Random, group: dict) -> dict:
         return {"k": "clear", "which": rng.choice(["all", "res", "so", "un", "ma", "cd", "so", "un"])}
     kind = rng.choice(["U", "U", "U", "M", "M", "D", "C", "R", "S"])
     inner = rng.choice(mods)
+    head_bound = False
     r = rng.random()
     pk = group["pkg"]
     if r < 0.66:
@@ -160,10 +211,14 @@ def gen_op(rng: random.Random, group: dict) -> dict:
         ref = ["s", name]
         intended = [inner, name] if bound_in(group, inner, name) else None
     elif r < 0.84:
-        target = rng.choice(mods)
+        heads = list(mods)
+        for m in group["mods"]:
+            if m["name"] == inner:
+                heads += [b[0] for b in m["binds"] if b[1] == "importas"] * 2
+        heads += ALIASES[:1]
         name = rng.choice(UNIVERSE[:3])
-        ref = ["s", f"{target}.{name}"]
-        intended = [target, name] if bound_in(group, target, name) else None
+        ref = ["s", f"{rng.choice(heads)}.{name}"]
+        intended, head_bound = qualified_target(group, inner, ref[1])
     elif r < 0.93:
         target = rng.choice(mods)
         name = rng.choice(UNIVERSE[:3])
@@ -172,7 +227,7 @@ def gen_op(rng: random.Random, group: dict) -> dict:
     else:
         full = pk["pkg"] + "." + pk["sub"]
         ref = ["s", full + ".Node"]
-        intended = [full, "Node"]
+        intended, head_bound = qualified_target(group, inner, ref[1])
     # the stack: outermost -> innermost
     path = []
     for _ in range(rng.choice([0, 0, 1, 1, 2])):
@@ -186,6 +241,8 @@ def gen_op(rng: random.Random, group: dict) -> dict:
             path.append([m, "hop"])
     if rng.random() < 0.2:
         n = ref[1] if ref[0] == "s" and "." not in ref[1] and rng.random() < 0.7 else rng.choice(UNIVERSE)
+        if ref[0] == "s" and ref[1].split(".")[0] in ALIASES:
+            n = ref[1].split(".")[0]        # a LOCAL called like the leading name of the text
         src = rng.choice(mods)
         bound = [x for x in UNIVERSE if bound_in(group, src, x)]
         path.append([inner, f"do_local_{n}", [src, rng.choice(bound)] if bound else None])
@@ -193,7 +250,7 @@ def gen_op(rng: random.Random, group: dict) -> dict:
         path.append([inner, "do"])
     if kind == "R" and ref[0] == "f":
         kind = "S"          # refs.forwardref takes a text or a type, not a reference
-    return {"k": kind, "ref": ref, "path": path, "intended": intended}
+    return {"k": kind, "ref": ref, "path": path, "intended": intended, "head_bound": head_bound}
 
 
 def gen_history(rng: random.Random, group: dict, lo=2, hi=8) -> list:
@@ -217,7 +274,9 @@ def fixed_scenarios(tag: str) -> list:
     g = {"base": b, "witnesses": 8,
          "mods": [{"name": b + "a", "binds": [["Node", "class", 0], ["Item", "opt", 1], ["TypeNode", "class", 2], ["Leaf", "pipe", 6]]},
                   {"name": b + "b", "binds": [["Node", "class", 3], ["Leaf", "from", b + "a", "Node"], ["Item", "newtype", 7]]},
-                  {"name": b + "c", "binds": [["Item", "from", b + "a", "Node"]]}],
+                  {"name": b + "c", "binds": [["Item", "from", b + "a", "Node"], ["Ma", "importas", b + "a"],
+                                              [b + "a", "import", b + "a"], [b + "b", "importas", b + "a"],
+                                              [b + "p", "import", b + "p.x" + b + "p"]]}],
          "pkg": {"pkg": b + "p", "sub": "x" + b + "p", "binds": [["Node", "class", 4]]}}
     a, bb, c = b + "a", b + "b", b + "c"
 
@@ -242,7 +301,45 @@ def fixed_scenarios(tag: str) -> list:
          {"k": "U", "ref": ["s", f"{bb}.Node"], "path": [[a, "do"]], "intended": [bb, "Node"]},
          {"k": "M", "ref": ["f", "Node", bb], "path": [[a, "do"]], "intended": [bb, "Node"]}],
     ]
+    def q(k, m, text):
+        it, hb = qualified_target(g, m, text)
+        return {"k": k, "ref": ["s", text], "path": [[m, "do"]], "intended": it, "head_bound": hb}
+    hs += [
+        [q("U", c, "Ma.Node"), q("M", c, f"{a}.Node"), q("D", c, f"{bb}.Node"), q("U", a, f"{bb}.Node")],
+        [q("U", a, f"{bb}.Node"), q("U", c, f"{bb}.Node"), q("C", c, f"{g['pkg']['pkg']}.{g['pkg']['sub']}.Node"),
+         q("S", c, "Ma.Item"), q("R", c, "Ma.Leaf")],
+        # a LOCAL called like the leading name is not a name of the module: the leading name stays a module qualifier
+        [{"k": "R", "ref": ["s", "Ma.Node"], "path": [[a, "do_local_Ma", [a, "Node"]]], "intended": None, "head_bound": False},
+         {"k": "R", "ref": ["s", f"{bb}.Node"], "path": [[c, "shadow_Ma", [a, "Node"]], [a, "do"]], "intended": [bb, "Node"],
+          "head_bound": False}],
+    ]
     return [(g, h) for h in hs]
+
+
+ORACLE_TEXTS = [("typing.Optional[{n}]", "dict"), ("typing.List[{n}]", "list"), ("collections.deque[{n}]", "list"),
+                ("t.Optional[{n}]", "dict"), ("Optional[{n}]", "dict"), ("list[{n}]", "list"),
+                ("typing.Dict[str, {n}]", "map")]
+
+
+def oracle_extras(work) -> list:
+    """Subscripted texts (outside the model's evaluate): judged by the oracle only -- the string vs the annotation the
+    same text denotes for Python in the calling module."""
+    out, seen = [], set()
+    for g, _ in work:
+        if g["base"] in seen:
+            continue
+        seen.add(g["base"])
+        for m in g["mods"]:
+            if not bound_in(g, m["name"], "Node"):
+                continue
+            for text, shape in ORACLE_TEXTS:
+                tx = text.format(n="Node")
+                for k in ("U", "D"):
+                    out.append((g, {"k": k, "ref": ["s", tx], "path": [[m["name"], "do"]], "shape": shape,
+                                    "intended": ["expr", m["name"], tx],
+                                    "head_bound": "." in tx.split("[")[0]}))
+            break
+    return out
 
 
 # ======================================================================================================
@@ -308,20 +405,21 @@ def _build(w: _W):
     import impl
     g = w.group
     mods = {}
-    for m in g["mods"]:
-        mods[m["name"]] = impl.new_module(m["name"], module_source(m))
     pk = g["pkg"]
     pkg = impl.new_module(pk["pkg"], "")
     full = pk["pkg"] + "." + pk["sub"]
     sub = impl.new_module(full, module_source({"name": full, "binds": pk["binds"]}))
     setattr(pkg, pk["sub"], sub)
+    for m in g["mods"]:
+        mods[m["name"]] = impl.new_module(m["name"], module_source(m))
     mods[full] = sub
-    cal = impl.new_module(g["base"] + "cal", module_source({"name": g["base"] + "cal", "binds": [["ZzCal", "class", 9999]]}))
+    cal = impl.new_module(g["base"] + "cal", module_source({"name": g["base"] + "cal", "binds": [
+        ["ZzCal", "class", 9999], ["ZzMod", "importas", "typing"]]}))
     for mod in list(mods.values()) + [cal]:
         mod._cap = w.capture
     for m in g["mods"] + [{"name": full, "binds": pk["binds"]}]:
         for b in m["binds"]:
-            if b[1] == "from":
+            if b[1] in ("from", "import", "importas"):
                 continue
             mod = mods[m["name"]]
             bound = getattr(mod, b[0])
@@ -424,12 +522,22 @@ def _calibrate(w: _W, fixed: bool):
             chains["ECodecPost"] = r[-1]
     impl.clear_caches()
     extract = got["ext"][-1] if got["ext"] else None
-    return {"pkg": frames.PKG_NAME, "extract": extract, "chains": chains}
+    # which forwardref: "<module>." dropped only where it leads a dotted name?  (pure: the module is given)
+    strip_lead = refs.forwardref("xzq.N", module="zq").__forward_arg__ == "xzq.N"
+    # which head rule: is a leading name that the CALLING module binds a name of that module?
+    try:
+        caller_head = w.cal.do("R", "ZzMod.Any", None).__forward_module__ == w.cal.__name__
+    except Exception:
+        caller_head = False
+    impl.clear_caches()
+    return {"pkg": frames.PKG_NAME, "extract": extract, "chains": chains, "strip_lead": strip_lead, "caller_head": caller_head}
 
 
 def _resolve_objspec(w: _W, spec):
     if spec is None:
         return None
+    if spec[0] == "expr":
+        return eval(spec[2], w.mods[spec[1]].__dict__)
     return getattr(w.mods[spec[0]], spec[1], None)
 
 
@@ -440,7 +548,10 @@ def _mk_ref(ref):
     return typing.ForwardRef(ref[1], module=ref[2])
 
 
-def _input(w: _W, kind):
+def _input(w: _W, kind, shape="dict"):
+    if shape != "dict" and kind in ("U", "D"):
+        v = [{"x": 1}] if shape == "list" else {"a": {"x": 1}}
+        return v if kind == "U" else json.dumps(v).encode()
     if kind == "U":
         return {"x": 1}
     if kind == "D":
@@ -456,7 +567,8 @@ def _call(w: _W, op, ref):
     kind = op["k"]
     mod, fn = path[-1][0], path[-1][1]
     callee = getattr(w.mods[mod], fn)
-    args = (kind, ref, _input(w, kind)) if fn == "do" else (_resolve_objspec(w, path[-1][2]), kind, ref, _input(w, kind))
+    v = _input(w, kind, op.get("shape", "dict"))
+    args = (kind, ref, v) if fn == "do" else (_resolve_objspec(w, path[-1][2]), kind, ref, v)
     for step in reversed(path[:-1]):
         f = getattr(w.mods[step[0]], step[1])
         if step[1] == "hop":
@@ -558,10 +670,10 @@ def _observe(w: _W, kind, fn, ref=None):
     raise ValueError(kind)
 
 
-def _apply_to_object(w: _W, kind, obj):
+def _apply_to_object(w: _W, kind, obj, shape="dict"):
     import typelib
     from typelib import graph
-    v = _input(w, kind)
+    v = _input(w, kind, shape)
     if kind == "U":
         return typelib.unmarshal(obj, v)
     if kind == "M":
@@ -625,7 +737,7 @@ def _world(w: _W, framesets, refs_used):
 def _history(req):
     import impl
     group, ops = req["group"], req["ops"]
-    names = set(UNIVERSE) | {o["ref"][1] for o in ops if o["k"] != "clear" and o["ref"][0] == "s" and "." not in o["ref"][1]}
+    names = set(UNIVERSE) | {o["ref"][1].split(".")[0] for o in ops if o["k"] != "clear" and o["ref"][0] == "s"}
     w = _W(group, names)
     _build(w)
     var = _variant()
@@ -685,7 +797,7 @@ def _cold(req):
     impl.clear_caches()
     if req.get("object"):
         obj = _resolve_objspec(w, op["intended"])
-        return {"text": _observe(w, op["k"], lambda: _apply_to_object(w, op["k"], obj))[1]}
+        return {"text": _observe(w, op["k"], lambda: _apply_to_object(w, op["k"], obj, op.get("shape", "dict")))[1]}
     ref = _mk_ref(op["ref"])
     return {"text": _observe(w, op["k"], lambda: _call(w, op, ref))[1]}
 
@@ -879,7 +991,9 @@ class Emitter:
     def lib(self, name, L):
         ex = L["extract"] or {"gname": None, "mod": None, "qual": "", "file": "", "globals": [], "locals": []}
         arms = " ".join(f"| {e} => {self.stack(c)}" for e, c in L["chains"].items())
-        self.defs.append(f"Definition {name} : lib := {{| l_pkg := {_cs(L['pkg'])}; l_extract := {self.frame(ex)}; "
+        self.defs.append(f"Definition {name} : lib := {{| l_pkg := {_cs(L['pkg'])}; "
+                         f"l_strip_lead := {'true' if L.get('strip_lead') else 'false'}; "
+                         f"l_caller_head := {'true' if L.get('caller_head') else 'false'}; l_extract := {self.frame(ex)}; "
                          f"l_chain := fun e => match e with {arms} end |}}.")
 
     def world(self, name, W):
@@ -946,6 +1060,13 @@ def obligations(run, pool=None):
         run.oblige("refs:the live resolver is the repaired one (no functools memo on _resolve_module_name; a bare string is "
                    "qualified before it keys a factory cache) -- Refs_full_repaired / Refs_repaired_* apply", fixed and var.get("has_refs_cache", False),
                    json.dumps(var))
+        strip_lead, caller_head = bool(answers[0]["lib"].get("strip_lead")), bool(answers[0]["lib"].get("caller_head"))
+        run.oblige("refs:the live forwardref drops '<module>.' only where it leads a dotted name (l_strip_lead) -- "
+                   "Refs_repaired_qualified / Refs_repaired_caller_head apply", strip_lead,
+                   "refs.forwardref('xzq.N', module='zq') is not ForwardRef('xzq.N'): the pinned str.replace (Refs_refuted_qualified_mangled)")
+        run.oblige("refs:a leading name the calling module binds is a name of that module (l_caller_head) -- "
+                   "Refs_repaired_caller_head applies", caller_head,
+                   "forwardref('ZzMod.Any') from a module that binds ZzMod is qualified by 'ZzMod': the pinned head rule (Refs_refuted_dotted_head_pinned)")
         per_file = 40
         files = {}
         index = []
@@ -971,7 +1092,8 @@ def obligations(run, pool=None):
                 covbad.append({"history": chunk[ci], "op": oi, "implementation": answers[chunk[ci]]["texts"][oi]})
         n_ops = sum(len(h) for _, h in work)
         dist = distribution(work, answers)
-        dist["model_variant"] = "repaired (fixed=true)" if fixed else "before the repair (fixed=false)"
+        dist["model_variant"] = ("repaired (fixed=true)" if fixed else "before the repair (fixed=false)") + \
+            f", l_strip_lead={strip_lead}, l_caller_head={caller_head}"
         run.oblige("refs:every cases file evaluated", not failed, ", ".join(failed))
         run.record_corr("refs-histories", n_ops, mism, nontrivial=dist["calls"], dist=dist)
         if fixed:
@@ -1023,8 +1145,10 @@ def distribution(work, answers):
 # ---------------------------------------------------------------------------------- oracle
 def _cause(op, kind):
     r = op["ref"]
-    if r[0] == "s" and mangled(r[1]):
+    if r[0] == "s" and mangled(r[1]) and not op.get("head_bound"):
         return "qualified-mangled"
+    if r[0] == "s" and op.get("head_bound"):
+        return "dotted-prefix-is-caller-name"
     return kind
 
 
@@ -1046,6 +1170,13 @@ def search(run, pool=None, limit=6):
                 reqs.append({"kind": "cold", "group": g, "op": op}); where.append((i, j, "cold"))
                 if op["intended"] is not None and op["k"] in ("U", "M", "D", "C"):
                     reqs.append({"kind": "cold", "group": g, "op": op, "object": True}); where.append((i, j, "object"))
+        extras = oracle_extras(work)
+        for x, (g, op) in enumerate(extras):
+            i = len(work) + x
+            reqs.append({"kind": "cold", "group": g, "op": op}); where.append((i, 0, "cold"))
+            reqs.append({"kind": "cold", "group": g, "op": op, "object": True}); where.append((i, 0, "object"))
+        work = list(work) + [(g, [op]) for g, op in extras]
+        answers = list(answers) + [None] * len(extras)
         res = pool.map(reqs)
         cold, objt = {}, {}
         for (i, j, what), r in zip(where, res):
@@ -1054,6 +1185,8 @@ def search(run, pool=None, limit=6):
         seen = set()
         for (i, j), ct in sorted(cold.items()):
             g, h = work[i]
+            if answers[i] is None:
+                continue
             wt = answers[i]["texts"][j]
             if wt != ct:
                 nhist += 1
@@ -1082,9 +1215,10 @@ def search(run, pool=None, limit=6):
         # fork-cold is process-cold: sample
         sample = reqs[:: max(1, len(reqs) // 3)][:3]
         agree = all(fresh_request(q)["text"] == res[reqs.index(q)]["text"] for q in sample)
-        run.search_stats["refs-oracle"] = {"evaluations": len(reqs) + sum(len(h) for _, h in work), "calls_alone": len(cold),
+        run.search_stats["refs-oracle"] = {"evaluations": len(reqs) + sum(len(h) for _, h in work[: len(work) - len(extras)]), "calls_alone": len(cold),
                                            "objects_alone": len(objt), "history_failures": nhist, "transparency_failures": ntrans, "causes": causes,
-                                           "fork_cold_equals_fresh_process": agree, "reported": len(failures)}
+                                           "fork_cold_equals_fresh_process": agree, "reported": len(failures),
+                                           "subscripted_texts_judged": len(extras)}
         return failures
     finally:
         if own:
